@@ -19,8 +19,9 @@
 (* File: [probs |-> <<problem, ...>>, tr |-> <<[p |-> index, o |-> <<      *)
 (*   <<call, x, on, generators, cost, cost is an integer, ys, ys are       *)
 (*     integers, exception class, cost-hint>>, ...>>], ...>>]              *)
-(* Verdict: <<"V", tid, clause|"ok", call, costclause|"ok", call, calls    *)
-(*            validated, "drift"|"same">>                                  *)
+(* Verdict: <<"V", tid, clause|"ok", call, calls validated, "drift"|"same">>*)
+(*     and  <<"C", tid, costclause|"ok", call>>   (two short lines: TLC    *)
+(*     wraps long tuples)                                                  *)
 (***************************************************************************)
 EXTENDS Roto, Json, IOUtils
 CONSTANT NTRACES
@@ -79,7 +80,8 @@ TStep ==
                   /\ l' = l + 1 /\ UNCHANGED <<verdict, vstep>>
           /\ UNCHANGED tid
 TDone == /\ l = Len(Trc.o) + 1
-         /\ PrintT(<<"V", tid, verdict, vstep, cverdict, cstep, nval, IF drift THEN "drift" ELSE "same">>)
+         /\ PrintT(<<"V", tid, verdict, vstep, nval, IF drift THEN "drift" ELSE "same">>)
+         /\ PrintT(<<"C", tid, cverdict, cstep>>)
          /\ l' = l + 1
          /\ UNCHANGED <<tid, x, S, gen, verdict, vstep, cverdict, cstep, nval, drift>>
 TNext == TStart \/ TStep \/ TDone
